@@ -1412,7 +1412,7 @@ def rule_barrier_frame(cx, tier):
         indirect = [c for c in calls if c.short.startswith(VM) and c.short[len(VM):] in INDIRECT]
         pushes = [c for c in calls if c.short == VM + "push_frame"]
         sym = Sym(cx, fn)
-        gs = [g for g in guards(cx, fn, sym) if g[2] in ("Eq", "Ne") and
+        gs = [g for g in guards(cx, fn, sym) if g[2] in ("Eq", "Ne", "Lt", "Le", "Gt", "Ge") and
               any("len(self.call_stack)" in leaves_of(e) for e in (g[3], g[4]))]
         for wb in writes:
             n += 1
@@ -1423,7 +1423,11 @@ def rule_barrier_frame(cx, tier):
                 verdict = "own push_frame"
             for (gb, dest, opn, le, re_, cty) in gs:
                 side = edge_side(cx, fn, cfg, gb, dest, wb)
-                if (opn == "Eq" and side == "false") or (opn == "Ne" and side == "true"):
+                len_is_lhs = "len(self.call_stack)" in leaves_of(le)
+                # outcome on which `len > old` holds
+                grown = {("Eq", "false"), ("Ne", "true")}
+                grown |= {("Gt", "true"), ("Le", "false")} if len_is_lhs else {("Lt", "true"), ("Ge", "false")}
+                if (opn, side) in grown:
                     verdict = "call stack has grown"
             r.sample({"fn": fn.qual, "line": line_of(fn, wb), "verdict": verdict or "unguarded"})
             if verdict is None:
@@ -1499,7 +1503,25 @@ def rule_unpack_once(cx, tier):
         for s2 in cfg.succ[b]:
             if (b, s2) not in zero_edges:
                 work.append(s2)
-    r.sample({"fn": fn.qual, "resets": len(zero_blocks), "zero_tests": len(eq_zero), "ok_return_without_reset": bad is not None})
+    # the other correct spelling: the forwarding call builds its CallInfo with `packed_arg_count: 0`
+    cc0 = cx.need_fn(VM + "call_callable")
+    du0 = cx.du(cc0)
+    adt = cx.F.adts.get("koto_runtime::vm::CallInfo")
+    fidx = [f[0] for f in adt["variants"][0]["fields"]].index("packed_arg_count") if adt else None
+    fwd0 = [c for c in cc0.calls() if c.short == VM + "call_callable"]
+    forwards_zero = bool(fwd0) and fidx is not None
+    for c in fwd0:
+        l = op_base(c.args[1]) if len(c.args) > 1 else None
+        d = du0.single_def(l) if l is not None else None
+        ok0 = False
+        if d is not None and d[2] == "assign" and d[3][0] == "agg" and len(d[3][2]) > fidx:
+            o = d[3][2][fidx]
+            ok0 = op_const(o) is not None and op_int(o) == 0
+        forwards_zero = forwards_zero and ok0
+    r.sample({"fn": fn.qual, "resets": len(zero_blocks), "zero_tests": len(eq_zero), "ok_return_without_reset": bad is not None,
+              "forwarding_call_passes_zero": forwards_zero})
+    if bad is not None and forwards_zero:
+        bad = None
     if bad is not None:
         r.add(Finding("R-UNPACK-ONCE", fn.qual, "ok-return-with-count-left",
                       "unpack_packed_arguments can return Ok with `info.packed_arg_count` still non-zero after draining the "
@@ -1637,6 +1659,19 @@ def rule_module_canon(cx, tier):
             _, _, calls = _backward_slice(fn, du, s0, stop=("join", "with_extension", "push", "set_extension"))
             if any((cc.pretty or cc.short or "").rsplit("::", 1)[-1].startswith("canonicalize") for cc in calls):
                 canon = True
+        if not canon:
+            # the other correct place: every caller canonicalizes what find_module hands back
+            callers = [(g, c) for g in cx.F.fns.values() if g.crate.uname.startswith("koto") for c in g.calls()
+                       if c.short == fn.qual or (c.resolved or "") == fn.name]
+            def caller_canon(g, c):
+                dug = cx.du(g)
+                for c2 in g.calls():
+                    if (c2.pretty or c2.short or "").rsplit("::", 1)[-1].startswith("canonicalize") and c2.args:
+                        l = op_base(c2.args[0])
+                        if l is not None and any(x.bb == c.bb for x in _backward_slice(g, dug, l)[2]):
+                            return True
+                return False
+            canon = bool(callers) and all(caller_canon(g, c) for g, c in callers)
         r.sample({"line": line_of(fn, b.idx), "from_canonicalize": canon})
         if not canon:
             r.add(Finding("R-MODULE-CANON", fn.qual, "ok-return-not-canonical",
